@@ -9,6 +9,86 @@ VERIF = os.path.dirname(os.path.dirname(os.path.abspath(__file__)))
 CORE_NOTE = 'Trusted: harness-owned input/action/output plugins around the real Pipeline, streams, pools, Batcher and RetriableBatcher; action chain limited to a filter and a join-like action; small-scope model (<=4 events, 2 processors, 2 workers); real schedules are sampled (scripted + random), not exhaustive; property monitors evaluated by TLC on every recorded step.'
 
 CHECKS = {
+    "C07": ("TLA+ model of a crash-consistent file system + the save protocol of offsetDB.save / offset.Save (deviation switches; residual / "
+            "faithful / fixed configs) + byte-level transcription of the offsets-file writer and parser, checked by TLC; TLC fault schedules "
+            "executed by the real code under strace with injected syscall failures, syscall traces validated by TLC (OffsetsFileTrace), every "
+            "crash-allowed disk content loaded by the real load(), every enumerated job table round-tripped through real save/load",
+            "TLC proves AlwaysLoadable / NeverAhead / DurableBeforeReplace / FailedStepKeepsOld on every behaviour in which no named deviation fired "
+            "(2 jobs x 2 streams, commits interleaved with saves, every single and double step failure, every crash view) and the writer/parser "
+            "round trip outside the D8 class; the real code is bound by strace trace validation of every fault shape and real load() of all "
+            "materialised post-crash states.",
+            "Trusted: weakest-POSIX crash semantics of the model (crashes are not executed); strace EIO injection standing in for real I/O errors; "
+            "partial failing writes only at model level; commit placements sampled; directory-entry durability not demanded.", "DESIGN.md §6 C07"),
+    "C11": ("TLA+ transcription of serveBulk/processBulk/processChunk model-checked by TLC against the declarative SplitOnNL oracle (serial and "
+            "two interleaved requests, spec mutants rejected); every exported case replayed on the real plugin (Start with address off, ServeHTTP) "
+            "plain and gzip, plus seeded long-line and concurrent families",
+            "TLC proves on all bodies over {a,\\r,\\n} up to the bound x all splits into reads x EOF/err flavours x empty reads x a second request "
+            "reusing pooled buffers that exactly SplitOnNL(body) is handed over, 200 only afterwards and never on a reader error, and that two "
+            "interleaved requests never share a source id or bytes; the real plugin must produce the same In calls and status position.",
+            "Trusted: transcription bound to the code through the replayed cases (length <= 5/6, three symbols); long lines and concurrency by seeded "
+            "derivations; net/http framing below ServeHTTP and sync.Pool semantics assumed.", "DESIGN.md §6 C11"),
+    "C14": ("declarative three-valued TLA+ evaluator of the documented do_if / match_fields semantics + transcription of the code's short-cut "
+            "evaluation, model-checked against each other by TLC (named deviation switches); every exported rule built through the real config "
+            "path and compared on every event with doif.Checker.Check, processor.doActions/isMatch (two event orders) and end to end via fd.SetupActions",
+            "TLC proves on all rules in scope (every field op x value lists x case flag, regexp family, length/int/timestamp/type leaves x six "
+            "comparators, all and/or/not trees to depth 2-3, and/or/and_prefix/or_prefix x exact/list/regexp x invert) x all small events that the "
+            "transcribed evaluation equals the documented value outside four named defect classes; the real code must give the documented value on "
+            "all those pairs independently of event order and construction path.",
+            "Trusted: Go regexp and time parsing (regexps restricted to a family with structural truth); small scope; where README/doc comments are "
+            "silent the oracle accepts both outcomes; four known findings excused only under narrow signatures.", "DESIGN.md §6 C14"),
+    "C15": ("TLA+ transcriptions of join.Do/flush (+ the processor's addressing of events and time-outs for a two-action chain) and of the k8s "
+            "MultilineAction.Do, model-checked by TLC against a declarative Runs/Output oracle; every exported (case, time-out placement) replayed on "
+            "the real join, join_template and k8s plugins; timed runs of the real pipeline checked per stream against the TLC table",
+            "TLC proves for all class sequences <=5/6 x time-out placements x max_event_size x negate/templates (and all k8s fragment sequences x "
+            "limits x cut-off x split) that the transcriptions output exactly Output(seq, TO) with the code's deviations as named switches; all cases "
+            "are executed on the real plugins and real-pipeline runs must show the same per-stream output, no cross-stream merge, no panic and a flush "
+            "within 3 s of quiet (3/3).",
+            "Trusted: small scope (<=1 action besides the join, synchronous output); transcription bound to the code through the replayed cases; five "
+            "genuine defects carried as known findings (D5, D12, D15, D16, D17).", "DESIGN.md §6 C15"),
+    "C16": ("TLA+ transcription of inMemoryLimiter.isAllowed / getDistrData / rebuildBuckets model-checked by TLC against the declarative per-key, "
+            "per-bucket, per-share budget statement (+ 8 spec mutants that must be rejected); every exported history replayed step by step on the "
+            "real inMemoryLimiter and the real Plugin.Do with the statement re-evaluated on the real pass/discard history",
+            "TLC proves on all small-scope histories (1-2 keys, 3-5 events, buckets_count 1-4, limits 0-4, count/size kind, distribution, event times "
+            "inside/outside/ahead of the window, clock jumps) that the ring/rotation/re-map/add-then-compare/steal logic never passes more than the "
+            "limit or share, never rejects under the limit and decides each key from its own sub-history; all histories are executed on the real "
+            "limiter and plugin and every decision must be one the statement allows.",
+            "Trusted: transcription bound to the code through replayed small-scope histories; in-memory backend; limiter expiry off; decisions the "
+            "statement leaves open are not constrained; non-monotone clock gives drift warnings only.", "DESIGN.md §6 C16"),
+    "C17": ("functional TLA+ specification of masking over the regexp engine's own submatch table, TLC-checked on all small abstract tables "
+            "together with a step transcription of maskValue; every logged execution of the real Plugin.Do validated by TLC (MaskTrace.tla) against "
+            "the same predicates",
+            "TLC shows on every abstract table (<=4 characters, <=2 matches, <=2 groups, all group lists and modes) that the transcribed loop returns "
+            "only acceptable outputs and fails exactly in the named D13 situations; 6x10^4 (quick) to 5.6x10^5 (thorough) real executions must satisfy "
+            "OutsideKept, SecretGone, exact rendering where ranges are disjoint and ascending, applied/metric equivalence and tree scope.",
+            "Trusted: Go's regexp engine (its table is an input, checked well-formed); small alphabet and lengths; rendering of overlapping/nested/"
+            "empty selections left open; do_if and non-object roots not covered; D13 and D18 carried as known findings.", "DESIGN.md §6 C17"),
+    "C18": ("TLA+ transcription of ParseFieldSelector, ParseNestedFields, keep_fields.traverseFieldsTree (depth buffers) and remove_fields' "
+            "Dig+Suicide loop model-checked by TLC against declarative Keep/Remove/Norm; every exported (document, selector list, expected results) "
+            "case replayed on the real plugins through Start and Do and compared as an ordered token sequence",
+            "TLC shows over the whole small scope (8 families; 0.49 M cases quick, 3.6 M thorough) that the transcribed algorithms equal the naive "
+            "project/subtract functions exactly with an order-preserving delete and up to member order under the named deviation D_SwapDelete; both "
+            "real plugins are run on every case with user-written selector strings.",
+            "Trusted: small scope (<=5 members, depth <=3, five key names, <=3 selectors); replay is the only tie between transcription and code; "
+            "numeric path elements, the '..' selector form, duplicate keys and >16-member objects not covered.", "DESIGN.md §6 C18"),
+    "C19": ("TLA+ transcription of the elasticsearch/http out function (per-worker outBuf/begin reuse, Batch.ForEach, recursive sendSplit on 413) "
+            "model-checked by TLC against Payload / FramingOK / BodyIs / SplitCovers (spec mutants, strict-versus-deviation pair for D14); every "
+            "exported case replayed into the real output plugins (ES, http, splunk, loki, file, kafka, gelf) with adversarial routing values, each "
+            "captured body parsed back into event ids",
+            "TLC proves on the small-scope case space (every monotone 413 pattern over <=4 events, <=3 shrinking batches, event kinds, size classes) "
+            "that the buffer/begin/split arithmetic delivers exactly the deliverable events once and in order, D14 characterised exactly; the real "
+            "plugins' captured bodies must parse and carry the same ids.",
+            "Trusted: transcription bound to the code through the replayed cases (<=4 events, <=3 batches, one worker); only 413 answers scripted; "
+            "JSON validity is structural; clickhouse/postgres/s3/socket/stdout outputs not covered; three known findings.", "DESIGN.md §6 C19"),
+    "C20": ("TLA+ transcription of checkInputBytes/In and of Antispammer.IsSpam/Maintenance model-checked by TLC against declarative admission "
+            "invariants; every exported size case and every maximal arrival/maintenance history replayed on the real Pipeline.In / Antispammer "
+            "step by step",
+            "TLC proves on the small-scope space (record lengths 0..M+2 x newline x max_event_size x cut_off x mark x decodable x committed; all "
+            "arrival/maintenance histories up to 8-11 steps, thresholds 1-3/disabled, unban 4 and 1, exception/rule classes) that the transcription "
+            "refuses, cuts, marks, bans and unbans only as the statement allows; every case is executed on the real code and verdict, delivered bytes, "
+            "mark and ban state are compared after each step.",
+            "Trusted: small scope; sequential IsSpam/Maintenance (no concurrent callers of one source); one threshold per source; decoder fidelity "
+            "excluded (C12); two genuine deviations carried as known findings.", "DESIGN.md §6 C20"),
+
     "C01": ("TLC model checking of Pipeline.tla (design model, one action per critical section) + TLC-generated schedules (spec-mutant "
             "counterexamples, simulation) replayed into the real pipeline + TLC trace validation of every run against PipelineObs monitors",
             "The commit-frontier invariant is checked exhaustively on the design model (all interleavings of reader, 2 processors, 2 workers, "
